@@ -41,7 +41,7 @@ def label(s):
     if s.startswith('C02|') and ':h-tag=id-rotated-since|' in s and ('|lost|' in s or '|ends-created|' in s): return 'D14'
     if s.startswith('C02|lost|') and ':redelivery=disabled:' in s and s.endswith('|deliver(commit.other.winner@cur)->Unprocessable'): return 'D2'
     if s.startswith('C03|removed-user-still-in-roster-after-settling|') and 'snapshot-at-fork=no,on-branch-of=own-commit' in s and (s.endswith(',own-commit-applied-by=merge') or s.endswith(',own-commit-applied-by=start-state')): return 'D1'
-    if s.startswith('C03|removed-user-still-in-roster-after-settling|') and 'snapshot-at-fork=yes,on-branch-of=other-commit,branch-is-better=false' in s and s.endswith(',first-offered=loser,restart-after-it=true'): return 'D8'
+    if s.startswith('C03|removed-user-still-in-roster-after-settling|') and 'snapshot-at-fork=yes,' in s and 'branch-is-better=false' in s and ('on-branch-of=other-commit' in s or 'own-commit-applied-by=echo' in s) and s.endswith(',first-offered=loser,restart-after-it=true'): return 'D8'
     if s.startswith('C03|reactivated-after-eviction:pending|via=process_welcome(foreign-invitation)->Welcome'): return 'D11'
     if s.startswith('C03|reactivated-after-eviction:active|via=accept_welcome(own-invitation)->Ok'): return 'D16'
     if s.startswith('C04|message-of-another-author-altered|replay=commit|same-h,smaller-id|'): return 'D18'
